@@ -241,7 +241,10 @@ def sub_examples(ctx):
         except FileNotFoundError:
             ctx.stats.skip("example-missing-" + name)
             continue
-        if order >= ds.nv and m in ("spline", "lsq_poly"):
+        if order >= ds.nv and m in ("spline", "lsq_poly", "lagrange", "krogh"):
+            # not an admissible order: below the number of sampled volumes (for the two global polynomial methods an order
+            # equal to the number of volumes means a polynomial through all of them, which cij's own comments call unstable
+            # beyond six nodes - diopside, 7 volumes, order 7 returns frequencies of 1e216 cm^-1)
             continue
         ds.spec["interpolator"], ds.spec["order"] = m, order
         s = {"example": name, "interpolator": m, "order": order, "grid": gname, "nt": nt, "dt": dt, "tmin": 0.0,
